@@ -195,10 +195,15 @@ Record struct_def := mk_struct {
   s_params : list (tref * option Z)   (* runtime parameters: type and explicit :N *)
 }.
 
+(* Attributes qualified with a back end ([(cpp) ...], [(xyz) ...]) are not front-end attributes:
+   they never appear in the attr lists above (they cannot change byte order, enum width/sign or
+   fixed size); the front end only requires their qualifier to be declared. *)
 Record module := mk_module {
   m_attrs : list attr;
   m_enums : list enum_def;
-  m_structs : list struct_def
+  m_structs : list struct_def;
+  m_expected_back_ends : list string;   (* [expected_back_ends], default "cpp" *)
+  m_used_back_ends : list string        (* qualifiers occurring on attributes anywhere in the module *)
 }.
 
 Record tables := mk_tables {
@@ -401,8 +406,13 @@ Definition check_param (T : tables) (M : module) (p : tref * option Z) : bool :=
   | _ => true
   end.
 
+(* _verify_back_end_attributes *)
+Definition check_back_ends (M : module) : bool :=
+  forallb (fun b => existsb (String.eqb b) (m_expected_back_ends M)) (m_used_back_ends M).
+
 Definition check_layout (T : tables) (M : module) : bool :=
   check_all_attrs T M
+  && check_back_ends M
   && forallb check_enum (m_enums M)
   && forallb (fun s => check_struct_size s && forallb (check_field T M s) (s_fields s)
                        && forallb (check_param T M) (s_params s)) (m_structs M)
@@ -519,8 +529,12 @@ Definition real_param (M : module) (p : tref * option Z) : Prop :=
   | _ => True
   end.
 
+Definition real_back_ends (M : module) : Prop :=
+  forall b, In b (m_used_back_ends M) -> In b (m_expected_back_ends M).
+
 Definition realisable (T : tables) (M : module) : Prop :=
   real_attrs T M
+  /\ real_back_ends M
   /\ (forall e, In e (m_enums M) -> real_enum e)
   /\ (forall s, In s (m_structs M) ->
         real_struct_size s /\ (forall f, In f (s_fields s) -> real_field T M s f)
